@@ -649,16 +649,63 @@ cstr_arg (int which, const char *h, long *lenp)
 }
 
 /* ------------------------------------------------------------------ faults */
+static int wprot_mode;              /* 1: re-entrant calls run with the library's writable segments read-only */
+static int reentrant_call;          /* the pending call is one of the re-entrant interfaces */
 static void
 on_signal (int sig)
 {
   char b[400];
-  int n = snprintf (b, sizeof b, "{\"e\":\"Fault\",\"sig\":%d,\"line\":%ld,\"cmd\":\"%s\",\"inlib\":%d}\n",
-                    sig, lineno, curcmd, in_lib);
+  int n = snprintf (b, sizeof b, "{\"e\":\"Fault\",\"sig\":%d,\"line\":%ld,\"cmd\":\"%s\",\"inlib\":%d,\"wprot\":%d}\n",
+                    sig, lineno, curcmd, in_lib, wprot_mode && reentrant_call);
   fflush (out);
   if (write (fileno (out), b, (size_t) n) < 0)
     _exit (3);
   _exit (0);
+}
+
+/* ------------------------------------------------------------------ C08: static storage write-protected */
+static struct { uintptr_t lo, hi; } wseg[8];
+static int nwseg;
+static int
+phdr_cb (struct dl_phdr_info *info, size_t size, void *data)
+{
+  (void) size; (void) data;
+  if (info->dlpi_addr != libbase || !libbase)
+    return 0;
+  uintptr_t relro_lo = 0, relro_hi = 0;
+  for (int i = 0; i < info->dlpi_phnum; i++)
+    if (info->dlpi_phdr[i].p_type == PT_GNU_RELRO)
+      {
+        relro_lo = libbase + info->dlpi_phdr[i].p_vaddr;
+        relro_hi = relro_lo + info->dlpi_phdr[i].p_memsz;
+      }
+  for (int i = 0; i < info->dlpi_phnum && nwseg < 8; i++)
+    {
+      const ElfW (Phdr) *ph = &info->dlpi_phdr[i];
+      if (ph->p_type != PT_LOAD || !(ph->p_flags & PF_W))
+        continue;
+      uintptr_t lo = libbase + ph->p_vaddr, hi = lo + ph->p_memsz;
+      if (relro_hi > lo && relro_lo <= lo)
+        lo = relro_hi;                       /* the RELRO part is read-only already */
+      lo = (lo + 4095) & ~(uintptr_t) 4095;  /* whole pages that hold only .data/.bss */
+      hi = (hi + 4095) & ~(uintptr_t) 4095;
+      if (hi > lo)
+        {
+          wseg[nwseg].lo = lo; wseg[nwseg].hi = hi;
+          nwseg++;
+        }
+    }
+  return 1;
+}
+static void
+wprot_set (int ro)
+{
+  if (!wprot_mode || !reentrant_call)
+    return;
+  if (!nwseg)
+    dl_iterate_phdr (phdr_cb, 0);
+  for (int i = 0; i < nwseg; i++)
+    mprotect ((void *) wseg[i].lo, wseg[i].hi - wseg[i].lo, ro ? PROT_READ : PROT_READ | PROT_WRITE);
 }
 
 /* ------------------------------------------------------------------ running a call (optionally on a private stack) */
@@ -683,11 +730,13 @@ run_call (void (*fn) (void))
   snap_statics ();
   if (!stack_mode)
     {
+      wprot_set (1);
       in_lib = 1;
       alarm (call_timeout);
       fn ();
       alarm (0);
       in_lib = 0;
+      wprot_set (0);
       return;
     }
   if (!pstack)
@@ -920,6 +969,7 @@ main (int argc, char **argv)
           *q = '?';
       t0[0] = t1[0] = t2[0] = t3[0] = t4[0] = t5[0] = 0;
       char cmd[32];
+      reentrant_call = 0;
       int nf = sscanf (line, "%31s %163839s %163839s %163839s %63s %63s %63s", cmd, t0, t1, t2, t3, t4, t5);
       (void) nf;
 
@@ -932,6 +982,8 @@ main (int argc, char **argv)
         scan_on = atoi (t0);
       else if (!strcmp (cmd, "logpc"))
         log_pc = atoi (t0);
+      else if (!strcmp (cmd, "wprot"))
+        wprot_mode = atoi (t0);
       else if (!strcmp (cmd, "stack"))
         stack_mode = atoi (t0);
       else if (!strcmp (cmd, "fault"))
@@ -967,6 +1019,7 @@ main (int argc, char **argv)
           if (a_phr && scan_on)
             needles_from ((const unsigned char *) a_phr, (size_t) a_phrlen);
           int isrn = !strcmp (cmd, "crypt_rn");
+          reentrant_call = 1;
           run_call (isrn ? call_crypt_rn : call_crypt_r);
           fprintf (out, "{\"e\":\"%s\",\"o\":%d,\"al\":%d,\"pl\":%ld,\"ph\":", cmd, id, o->align, a_phrlen);
           emit_ph_s ();
@@ -1055,6 +1108,7 @@ main (int argc, char **argv)
           if (a_phr && scan_on)
             needles_from ((const unsigned char *) a_phr, (size_t) a_phrlen);
           expect_erase_len = pre_size > 0 ? (size_t) pre_size : 0;
+          reentrant_call = 1;
           run_call (call_crypt_ra);
           expect_erase_len = 0;
           fprintf (out, "{\"e\":\"crypt_ra\",\"o\":%d,\"al\":0,\"pl\":%ld,\"ph\":", 100 + id, a_phrlen);
@@ -1167,7 +1221,9 @@ main (int argc, char **argv)
                     add_needle (pred + i);
                 }
             }
+          reentrant_call = kind != 1;
           run_call (kind == 0 ? call_gensalt_rn : kind == 1 ? call_gensalt : call_gensalt_ra);
+          reentrant_call = 0;
           int guard_ok = 1, touched = 0;
           long lim = a_outsize < 0 ? 0 : a_outsize;
           if (kind == 0)
@@ -1234,6 +1290,7 @@ main (int argc, char **argv)
       else if (!strcmp (cmd, "checksalt"))
         {
           a_set = cstr_arg (1, t0, &a_setlen);
+          reentrant_call = 1;
           run_call (call_checksalt);
           fprintf (out, "{\"e\":\"checksalt\",\"s\":");
           if (a_set) jstr_codes ((const unsigned char *) a_set, (size_t) a_setlen); else fprintf (out, "[]");
